@@ -1,5 +1,5 @@
 (* Properties/C16.v — ONLY property theorems of C16 and their Print Assumptions. *)
-From Precond Require Import Base.QMat C09.Model C09.Proofs C16.Model C16.Proofs.
+From Precond Require Import Base.PyLib Base.QMat Base.PyFloat C09.Model C09.Proofs C16.Model C16.Proofs C16.Ref C16.RefLink.
 Open Scope Q_scope.
 
 (* OGD closed form, for every reciprocal-square-root oracle, learning rate, delta and history *)
@@ -68,3 +68,25 @@ Theorem c16_sada_lossless_is_full_adagrad :
   mul (mul (Xs M add sm Qc Fm a) (Xs M add sm Qc Fm a)) (As M add one sm Dm delta) = one.
 Proof. exact sada_lossless_is_full_adagrad. Qed.
 Print Assumptions c16_sada_lossless_is_full_adagrad.
+
+(* The model steps of the closed-form theorems ARE the code: C16.Ref.ogd_update_fn / ada_update_fn are
+   translated from precondition/oco/algorithms.py on every run (GenEq obligations) and act, coordinate
+   by coordinate, exactly as ogd_step / ada_step. *)
+Theorem c16_ogd_update_is_model_step : forall rs lr delta (w : vec) t (g : vec) i,
+  length w = length g -> (i < length w)%nat ->
+  nth i (fst (ogd_update_fn rs lr delta w t g)) 0
+    == fst (ogd_step rs lr delta (nth i w 0, t) (nth i g 0)) /\
+  snd (ogd_update_fn rs lr delta w t g) = snd (ogd_step rs lr delta (nth i w 0, t) (nth i g 0)).
+Proof. exact ogd_update_is_model_step. Qed.
+Print Assumptions c16_ogd_update_is_model_step.
+
+Theorem c16_ada_update_is_model_step : forall rs lr (w h g : vec) i,
+  length w = length g -> length h = length g -> (i < length w)%nat ->
+  nth i (fst (ada_update_fn rs lr w h g)) 0
+    = fst (ada_step rs lr (nth i w 0, nth i h 0) (nth i g 0)) /\
+  nth i (snd (ada_update_fn rs lr w h g)) 0
+    = snd (ada_step rs lr (nth i w 0, nth i h 0) (nth i g 0)) /\
+  length (fst (ada_update_fn rs lr w h g)) = length w /\
+  length (snd (ada_update_fn rs lr w h g)) = length h.
+Proof. exact ada_update_is_model_step. Qed.
+Print Assumptions c16_ada_update_is_model_step.
